@@ -107,7 +107,10 @@ PROPS.update({
         "Theorem c01_run_sound (all domains with lawful binding maps, all hosts, all executions of the modelled traversal): every match emitted on an "
         "automaton that passes lab_ok satisfies every constraint of its pattern under the returned bindings, which bind all their keys. lab_ok is "
         "evaluated on every automaton the real builder produces for the generated pattern sets; the modelled traversal is compared with "
-        "ManyMatcher::find_matches as exact match sequences on those automata; every reported match is also judged by an independent occurrence oracle.",
+        "ManyMatcher::find_matches as exact match sequences on those automata; every reported match is also judged by an independent occurrence oracle. "
+        "Strings and matrices: c01_string / c01_matrix carry this down to the occurrence specification. Port graphs: c01_portgraph_run_sound (modelled host "
+        "side, lab_ok with pairwise not-equal atoms) and c01_portgraph_embedding (pattern side modelled too: every reported match maps every pattern link "
+        "to a host link and distinct pattern nodes to distinct host nodes, given the per-pattern validation lines_cover evaluated on every pattern).",
         "Coq proof (invariant of the FIFO traversal w.r.t. an inductive labelling) + verified certificate checker on the real automaton + differential correspondence + occurrence oracle",
         ["c01", "pg01", "pgm"]),
     "C02": aut_prop("translation_validation",
